@@ -52,6 +52,12 @@ Definition C18_statement : Prop :=
   (* and no other parameter is deprecated *)
   (forall c, In c inits -> forall old, In old (cdeprecated c) ->
      exists new, In (cname c, old, new) documented_aliases) /\
+  (* a deprecated parameter left at its default is returned as the identical object too (so clone's identity check
+     passes for every constructor parameter, also when the sentinel string is a copy, e.g. after unpickling) *)
+  (forall c, In c inits ->
+     forall (V : Type) (is_sentinel : V -> bool) (constv : string -> V) (env : string -> V) p,
+       In p (cdeprecated c) -> is_sentinel (env p) = true ->
+       get_param V is_sentinel constv c env p = Some (env p)) /\
   (* set_params then get_params *)
   (forall c (V : Type) is_sentinel constv env name,
      get_param V is_sentinel constv (set_param c name) env name = Some (env name)) /\
@@ -65,7 +71,7 @@ Definition all_ok : bool :=
   forallb (fun c => forallb (fun old =>
      existsb (fun a => match a with (cn, o, _) => String.eqb cn (cname c) && String.eqb o old end)
              documented_aliases) (cdeprecated c)) inits &&
-  forallb is_guarded guarded_methods.
+  forallb is_guarded guarded_methods && forallb sentinel_kept inits.
 
 Lemma all_ok_true : all_ok = true.
 Proof. vm_compute. reflexivity. Qed.
@@ -73,8 +79,9 @@ Proof. vm_compute. reflexivity. Qed.
 Theorem C18_holds : C18_statement.
 Proof.
   pose proof all_ok_true as H. unfold all_ok in H.
-  apply andb_true_iff in H as [H H4]. apply andb_true_iff in H as [H H3]. apply andb_true_iff in H as [H1 H2].
-  split; [vm_compute; reflexivity|]. split; [|split; [|split; [|split]]].
+  apply andb_true_iff in H as [H H5]. apply andb_true_iff in H as [H H4]. apply andb_true_iff in H as [H H3].
+  apply andb_true_iff in H as [H1 H2].
+  split; [vm_compute; reflexivity|]. split; [|split; [|split; [|split; [|split]]]].
   - intros c Hc V is_s constv env D p Hp Hd.
     rewrite forallb_forall in H1. apply (class_ok_sound V is_s constv c (H1 c Hc) env D p Hp Hd).
   - intros cn old new Ha. rewrite forallb_forall in H2. specialize (H2 _ Ha). cbv beta iota in H2.
@@ -86,6 +93,8 @@ Proof.
     rewrite forallb_forall in H3. specialize (H3 old Ho).
     apply existsb_exists in H3 as [[[cn o] new] [Ha Hk]]. apply andb_true_iff in Hk as [E1 E2].
     apply String.eqb_eq in E1. apply String.eqb_eq in E2. subst. exists new. exact Ha.
+  - intros c Hc V is_s constv env p Hp Hs. rewrite forallb_forall in H5.
+    apply (sentinel_kept_sound V is_s constv c (H5 c Hc) env p Hp Hs).
   - intros. apply set_get.
   - intros m Hm. rewrite forallb_forall in H4. apply H4; auto.
 Qed.
